@@ -99,6 +99,9 @@ reg = {
         "tableverify": {"overlay": "units/tableverify.ovl", "canaries": ["canary_tableverify"],
                         "helpers": ["clone", "get_page", "new", "verify_checksum", "fixed_width", "fixed_width_with", "next", "parse_subtree_roots", "value", "range", "hint"]},
         # the release of a deleted table's pages (fragment of TableTreeMut::delete_table)
+        "mmremove": {"overlay": "units/mmremove.ovl", "canaries": ["canary_mmremove"],
+                     "helpers": ["lock", "drop", "borrow", "fixed_width", "memory", "new", "total_length", "num_pairs", "make_inline_data", "make_subtree_data", "insert", "remove",
+                                 "get_root", "ignore", "conditional_free", "get_page_size", "get_page"]},
         "tabledel": {"overlay": "units/tabledel.ovl", "canaries": ["canary_tabledel"], "helpers": ["lock", "drop", "from", "remove", "free_if_uncommitted", "uncommitted", "free"]},
         # ReadOnlyDatabase::new over models of its callees
         "roopen": {"overlay": "units/roopen.ovl", "canaries": ["canary_roopen"],
@@ -274,13 +277,14 @@ P["C10"] = {
               {"unit": "cow", "functions": ["MutateHelper::replace_branch_child", "MutateHelper::finalize_branch_builder", "MutateHelper::apply_subtree_result", "MutateHelper::rebuild_partial_leaf_child", "MutateHelper::merge_grandchild"]},
               {"unit": "search", "functions": ["BranchAccessor::child_for_key", "LeafAccessor::position"]},
               {"unit": "rootupd", "functions": ["MutateHelper::finish_deletion", "MutateHelper::delete_key"]},
-              {"unit": "bigpair", "functions": ["MutateHelper::insert_beside_large_value"]}],
+              {"unit": "bigpair", "functions": ["MutateHelper::insert_beside_large_value"]},
+              {"unit": "mmremove", "functions": ["MultimapTable::write_back_subtree"]}],
     "kani": [K["C10-F1"], K["C10-F2"], K["C10-F3"], K["C10-F4"], K["C10-F6a"], alias("C11-R3", "C10-F6b"), alias("C06-K2", "C10-F6c"),
              alias("C07-K1s", "C10-F6d"), alias("C04-L1f", "C10-P1f"), alias("C04-L1v", "C10-P1v")],
     "native": [dict(NATIVE["X-leafmut4"], id="C10-X-leafmut4")],
-    "explanation": "(V) checksum discipline of the mutator, verified on the REAL MutateHelper::replace_branch_child and finalize_branch_builder: a redirected child pointer always carries the DEFERRED checksum (recomputed at commit) - in place only on a page this transaction allocated, otherwise in a copy that differs from the original in exactly that pointer; a branch reduced to one child hands that child up WITH the checksum it carried, and when that child is merged into the sibling branch (fragment of apply_child_deletion_result) it is carried over with that same checksum on the correct side; an under-full branch is handed up unbuilt with children, checksums and keys untouched. (S) separator bounds on the REAL fast path of insert_helper for a leaf holding one huge pair: the two leaves are handed up in key order, the untouched one with its old checksum and the new one DEFERRED, and left <= separator < right (given branch_separator's contract, proved for the built-in key types in unit types_sep). Kernel = format conformance: every fixed-size encoder (page number, tree header, commit slot, database header, freed-page key, allocator-state key, savepoint record, page list) writes exactly the byte layout of docs/design.md (offsets are literals transcribed from the document, not the code's constants) - complete, loop-free; leaf pages: offsets tables, entries and the checksummed prefix - bounded.",
+    "explanation": "(V) checksum discipline of the mutator, verified on the REAL MutateHelper::replace_branch_child and finalize_branch_builder: a redirected child pointer always carries the DEFERRED checksum (recomputed at commit) - in place only on a page this transaction allocated, otherwise in a copy that differs from the original in exactly that pointer; a branch reduced to one child hands that child up WITH the checksum it carried, and when that child is merged into the sibling branch (fragment of apply_child_deletion_result) it is carried over with that same checksum on the correct side; an under-full branch is handed up unbuilt with children, checksums and keys untouched. (S) separator bounds on the REAL fast path of insert_helper for a leaf holding one huge pair: the two leaves are handed up in key order, the untouched one with its old checksum and the new one DEFERRED, and left <= separator < right (given branch_separator's contract, proved for the built-in key types in unit types_sep). Kernel = format conformance: every fixed-size encoder (page number, tree header, commit slot, database header, freed-page key, allocator-state key, savepoint record, page list) writes exactly the byte layout of docs/design.md (offsets are literals transcribed from the document, not the code's constants) - complete, loop-free; leaf pages: offsets tables, entries and the checksummed prefix - bounded; (M) the REAL write-back of a multimap value subtree after a removal stores the subtree's root together with the checksum the subtree reported for it (never a stale or zero one); (B, bounded native) the in-place leaf mutations leave exactly the bytes a rebuilt leaf would have, so the checksum of a mutated leaf is that of the rebuilt one.",
     "not_decided": "strictly increasing keys, separator bounds, equal depth, stored counts, no page referenced twice (invariants of btree_mutator.rs over histories); branch pages (probed: too expensive for CBMC); XXH3-128 being XXH3-128",
-    "assumptions": ["K1 (cow unit): a branch page is the sequence of its (child page, checksum) pointers; BranchBuilder::build allocates a fresh page of this transaction holding exactly the pointers pushed (built_children, a function of the page number); get_page_mut records what is written through the handle against the page; the separator keys are not modelled",
+    "assumptions": ["K1 (cow unit): a branch page is the sequence of its (child page, checksum) pointers; BranchBuilder::build allocates a fresh page of this transaction holding exactly the pointers pushed (built_children, a function of the page number); get_page_mut records what is written through the handle against the page; the separator keys are not modelled", "M3 (mmremove unit): the outer tree is the log of what was stored / removed under a key (a failing call logs nothing); a page is a function of its number while the fragment runs and a page named by a tree header starts with the LEAF or BRANCH tag; LeafAccessor reports the stored pair count and a length that does not exceed the page; the inline and subtree encodings are uninterpreted functions of what they encode (layout: Kani C09-K1/K2); conditional_free logs the page and the identity of the allocation record it was offered against (verified itself in unit alloc); the shared queue and record are held by value",
                     "docs/design.md lists '40 bytes: padding' before the transaction id of a commit slot; the fields then sum to 136 bytes, not 128. The oracle uses 32 bytes of padding (transaction id at 104, checksum at 112), the only reading consistent with the stated slot size; the document, not the code, is off by 8."],
 }
 P["C04"] = {
@@ -304,12 +308,14 @@ P["C06"] = {
                                               "InMemoryState::allocate_helper_retry", "TransactionalMemory::free_helper", "TransactionalMemory::free", "TransactionalMemory::free_if_unpersisted",
                                               "TransactionalMemory::claim_unpersisted", "PageAllocator::*", "Mutex::lock", "lemma_*"]},
               {"unit": "tabledel", "functions": ["TableTreeMut::delete_table_core"]},
+              {"unit": "mmremove", "functions": ["MultimapTable::write_back_subtree"]},
               {"unit": "restore", "functions": ["WriteTransaction::purge_freed_after"]},
               {"unit": "cow", "functions": ["MutateHelper::replace_branch_child", "MutateHelper::conditional_free", "MutateHelper::apply_subtree_result",
                                             "MutateHelper::rebuild_partial_leaf_child", "MutateHelper::finalize_branch_builder"]}],
     "kani": [K["C06-K1"], K["C06-K2"], alias("C10-F6a", "C06-K1b")],
     "native": [dict(NATIVE["X-unp3"], id="C06-X-unp3"), dict(NATIVE["X-unp4"], id="C06-X-unp4"), dict(NATIVE["X-pins3"], id="C06-X-pins3"), dict(NATIVE["X-pins4"], id="C06-X-pins4")],
-    "explanation": "Kernel: no block is handed out twice (alloc returns a subset of the free set and removes exactly it - shared with C14); freed-page records are keyed (transaction, page) lexicographically so the reclaimer's range ..(free_until, 0) can never contain a record of a transaction >= free_until; the page-list record returns what was stored; the REAL free_if_unpersisted releases a page at once only when it is in the unpersisted set (allocated by a non-durable commit, so no durable root names it), removes it from that set together with the release, and otherwise changes nothing; when the mutator replaces a branch page by a copy (fragments of MutateHelper::apply_child_deletion_result: the proper-subtree case and the rebuild of an under-full leaf beside a single huge value) the original page is handed to conditional_free exactly once, and when the branch was updated in place nothing is released; the REAL MutateHelper::replace_branch_child never writes to a page this transaction did not allocate (a committed page, which a reader or a savepoint may still see, is copied instead); the REAL PageAllocator::conditional_free / free_if_uncommitted release a page at once only when this transaction allocated it since its last commit (no committed root can name it) and otherwise queue it, exactly once, for the commit without touching the allocator; free_helper (whole function) makes exactly the block's pages free in its region and touches neither the header, nor another region, nor the storage.",
+    "explanation": "Kernel: no block is handed out twice (alloc returns a subset of the free set and removes exactly it - shared with C14); freed-page records are keyed (transaction, page) lexicographically so the reclaimer's range ..(free_until, 0) can never contain a record of a transaction >= free_until; the page-list record returns what was stored; the REAL free_if_unpersisted releases a page at once only when it is in the unpersisted set (allocated by a non-durable commit, so no durable root names it), removes it from that set together with the release, and otherwise changes nothing; when the mutator replaces a branch page by a copy (fragments of MutateHelper::apply_child_deletion_result: the proper-subtree case and the rebuild of an under-full leaf beside a single huge value) the original page is handed to conditional_free exactly once, and when the branch was updated in place nothing is released; the REAL MutateHelper::replace_branch_child never writes to a page this transaction did not allocate (a committed page, which a reader or a savepoint may still see, is copied instead); the REAL PageAllocator::conditional_free / free_if_uncommitted release a page at once only when this transaction allocated it since its last commit (no committed root can name it) and otherwise queue it, exactly once, for the commit without touching the allocator; free_helper (whole function) makes exactly the block's pages free in its region and touches neither the header, nor another region, nor the storage; the REAL write-back of a multimap value subtree (fragment of MultimapTable::remove) offers the leaf it folds back inline for release exactly once, against the table's own allocation record (so a page of this transaction leaves the record that a savepoint restore frees from) and only after the outer tree stopped pointing at it; a failure releases nothing.",
+    "assumptions": ["M3 (mmremove unit): see C09 - conditional_free logs the page and the identity of the allocation record it was offered against; the outer tree is a log"],
     "not_decided": "the accounting equation over histories, readers and savepoints; conditional_free; the in-memory bookkeeping only BOUNDED (native, never counted as proved): UnpersistedState (allocations_after(t) returns exactly the allocations of later transactions, claim drops page and record together, data_freed_in_range / drop_data_freed_after bounds) and the TransactionTracker pin counts that define the oldest live reader",
 }
 P["C07"] = {
@@ -327,11 +333,12 @@ P["C09"] = {
     "level": "proof",
     "verus": [{"unit": "mmiter", "functions": ["LeafKeyIter::next_key", "LeafKeyIter::next_key_back"]},
               {"unit": "tableverify", "functions": ["verify_tree_and_subtree_checksums"]},
-              {"unit": "relocate", "functions": ["TableTreeMut::relocate_tables"]}],
+              {"unit": "relocate", "functions": ["TableTreeMut::relocate_tables"]},
+              {"unit": "mmremove", "functions": ["MultimapTable::write_back_subtree", "BtreeHeader::new"]}],
     "kani": [K["C09-K1"], K["C09-K2"]],
-    "assumptions": ["L1 (relocate unit): a table definition is (root, entry count); relocate_tree does not change the count and returns an uninterpreted function of the definition; catalog names are unique; the staged updates are a map from name to (root, count, dirty)", "M2 (mmiter unit): key_at(n) returns the n-th value of the inline collection iff n is below the number of values (its body builds a LeafAccessor over the page bytes; layout: bounded Kani harness C09-K2)"],
-    "explanation": "Kernel: (V) the REAL double-ended cursor over the values of a key stored inline (LeafKeyIter::next_key / next_key_back): the values not yet yielded are exactly the indices between the two cursors, every call yields the smallest / largest of them and removes exactly it, and None is returned exactly when none is left - so every value is yielded once whatever mixture of next() and next_back() consumes them, for every collection size; (W) the REAL integrity walk of a multimap table (verify_tree_and_subtree_checksums): every per-key subtree of every page is verified, as a tree keyed by the table's value width; (C) the REAL catalog walk of compaction (TableTreeMut::relocate_tables): a table (multimap or not) whose tree was moved is staged with its new root and the entry count it had - staged earlier in the transaction, else recorded in the catalog - so compaction never changes len(); (K) the per-key collection record: subtree form round trip (complete) and inline form (bounded).",
-    "not_decided": "multimap operation sequences (insert / remove / remove_all), inline <-> subtree transitions, how len() is maintained by insert / remove, the subtree cursor (btree_cursor.rs), relocate_subtrees",
+    "assumptions": ["L1 (relocate unit): a table definition is (root, entry count); relocate_tree does not change the count and returns an uninterpreted function of the definition; catalog names are unique; the staged updates are a map from name to (root, count, dirty)", "M2 (mmiter unit): key_at(n) returns the n-th value of the inline collection iff n is below the number of values (its body builds a LeafAccessor over the page bytes; layout: bounded Kani harness C09-K2)", "M3 (mmremove unit): the outer tree is the log of what was stored / removed under a key (a failing call logs nothing); a page is a function of its number while the fragment runs and a page named by a tree header starts with the LEAF or BRANCH tag; LeafAccessor reports the stored pair count and a length that does not exceed the page; the inline and subtree encodings are uninterpreted functions of what they encode (layout: Kani C09-K1/K2); conditional_free logs the page and the identity of the allocation record it was offered against (verified itself in unit alloc); the shared queue and record are held by value"],
+    "explanation": "Kernel: (V) the REAL double-ended cursor over the values of a key stored inline (LeafKeyIter::next_key / next_key_back): the values not yet yielded are exactly the indices between the two cursors, every call yields the smallest / largest of them and removes exactly it, and None is returned exactly when none is left - so every value is yielded once whatever mixture of next() and next_back() consumes them, for every collection size; (W) the REAL integrity walk of a multimap table (verify_tree_and_subtree_checksums): every per-key subtree of every page is verified, as a tree keyed by the table's value width; (C) the REAL catalog walk of compaction (TableTreeMut::relocate_tables): a table (multimap or not) whose tree was moved is staged with its new root and the entry count it had - staged earlier in the transaction, else recorded in the catalog - so compaction never changes len(); (W) the REAL write-back after removing a value from a key's subtree (fragment of MultimapTable::remove): when nothing is left the key leaves the table; a lone leaf smaller than half a page goes back inline with exactly the leaf's bytes; otherwise the entry is a header naming the subtree's own root with its own checksum, and as count the leaf's pair count (lone leaf) or the subtree's count (branch); (K) the per-key collection record: subtree form round trip (complete) and inline form (bounded).",
+    "not_decided": "multimap operation sequences (insert / remove / remove_all), inline <-> subtree transitions other than the write-back after a removal from a subtree, how len() is maintained by insert / remove, the subtree cursor (btree_cursor.rs), relocate_subtrees",
 }
 P["C11"] = {
     "level": "proof",
